@@ -140,14 +140,14 @@ Theorem unknown_block_name_reported name value s :
   existsb (fun d => str_eqb (d_name d) name) (s_dblocks s) = false ->
   dblocks_setDefinition name value s =
   Ok (tt, set_log s ((s_cb s, $"illegal delimited block name: " ++ name ++ $": |" ++ name ++ $"|='" ++ value ++ $"'") :: s_log s)).
-Proof. intros H. unfold dblocks_setDefinition, bind, get. rewrite H. reflexivity. Qed.
+Proof. intros H. unfold dblocks_setDefinition, bind, gets. rewrite H. reflexivity. Qed.
 
 Theorem blank_macro_redefinition_reported value s :
   setValue_skip (s_mode s) = false -> nonempty value = true ->
   macros_setValue $"--" value s =
   Ok (tt, set_log s ((s_cb s, $"the predefined blank '--' macro cannot be redefined") :: s_log s)).
 Proof.
-  intros H Hv. unfold macros_setValue, bind, get. rewrite H.
+  intros H Hv. unfold macros_setValue, bind, gets. rewrite H.
   assert (E : ends_with [63] $"--" = false) by (vm_compute; reflexivity).
   rewrite E. cbv zeta. rewrite str_eqb_refl, Hv. reflexivity.
 Qed.
